@@ -3,7 +3,8 @@ import ast
 from .C08 import CBATTR
 
 from ..rules import must_precede, must_follow, GateAnalysis, ModeGate
-from ..cfg import cfg_of, always_raises
+from ..cfg import cfg_of, always_raises, handler_names, is_catch_all
+from ..pathcond import inline
 from ..effects import MUTATING
 from ..astutil import dotted, get_arg, derived, norm, enclosing, names_in, defs_of, assignments
 from ..srcmodel import own_nodes, AnalysisError
@@ -391,6 +392,28 @@ def d6_encoder(ctx):
         isinstance(s, ast.Assign) and norm(s.value) == 'DDJSONEncoder' for s in n.body) for n in own_nodes(wj.node))
     ctx.decide(ok and dflt, 'R-FLOW', 'D6', wj, dumps[0] if dumps else None, 'encoder-used',
                'write_jsonfile serialises with DDJSONEncoder by default', detail='encoder is not passed to json.dumps')
+    # no stricter gate elsewhere: every other serialisation of user data either uses the writer's encoder or can only
+    # warn (its handler swallows the failure) — a pre-check with the plain encoder that raises refuses NumPy scalars,
+    # arrays and bytes, which the writer itself accepts
+    for g in ctx.repo.all_funcs():
+        if g is wj:
+            continue
+        for n in own_nodes(g.node):
+            if not (isinstance(n, ast.Call) and dotted(n.func) in ('json.dumps', 'json.dump')):
+                continue
+            kw = get_arg(n, None, 'cls')
+            same = kw is not None and norm(inline(g, kw)) in ('DDJSONEncoder', 'utils.DDJSONEncoder')
+            swallowed = False
+            for p_, field in enclosing(g.node, n):
+                if isinstance(p_, ast.Try) and field == 'body' and any(
+                        is_catch_all(h) or handler_names(h) & {'TypeError', 'ValueError'} for h in p_.handlers) and \
+                        not any(isinstance(x, ast.Raise) for h in p_.handlers for x in ast.walk(h)):
+                    swallowed = True
+            ctx.decide(same or swallowed, 'R-SIB', 'D6', g, n, 'trial-serialisation',
+                       f'{g.qualname}: the trial serialisation `{norm(n)[:50]}` uses the writer\'s encoder or can only warn',
+                       detail='a serialisation with the plain JSON encoder whose failure is raised rejects values the writer '
+                              'accepts (NumPy numbers and arrays, bytes): metadata given at creation are refused although they '
+                              'are JSON-representable for Darr')
     # D4 (shared with C17): serialise before truncating open, no streaming dump
     opens = [e for e in ctx.E.primitives(wj) if e.kind == 'TRUNC-WRITE']
     streams = [n for n in own_nodes(wj.node) if isinstance(n, ast.Call) and dotted(n.func) == 'json.dump']
